@@ -121,12 +121,10 @@ def parse_assumptions(stdout, names):
                 blocks.append(cur)
             cur = []
         elif cur is not None:
-            if re.match(r'^\S', line) and ':' in line:
-                cur.append(line.strip())
+            if re.match(r'^\S', line):
+                cur.append(line.strip())          # "name : type" or a bare "name" (type on the next, indented lines)
             elif line.startswith(' ') and cur:
                 cur[-1] += ' ' + line.strip()
-            elif line.strip() == '':
-                pass
     if cur is not None:
         blocks.append(cur)
     res = {}
@@ -136,7 +134,7 @@ def parse_assumptions(stdout, names):
             if b == ['Closed under the global context']:
                 res[n] = []
             else:
-                res[n] = [re.split(r'\s*:\s*', x, 1)[0] for x in b if x]
+                res[n] = [re.split(r'\s*:\s*|\s+', x, 1)[0] for x in b if x]
         else:
             res[n] = None
     return res
